@@ -246,7 +246,7 @@ class Check:
             raise Machinery("TLC failed on %s (%s): %s\n%s" % (module, name, r.error, r.out[-3000:]))
         if expect is None and r.violated:
             return r  # caller decides (design-level counterexample)
-        if expect is not None and expect not in r.violated:
+        if expect is not None and not (set(expect.split("|")) & set(r.violated)):
             raise Machinery("sensitivity run %s/%s: expected %s to be violated, TLC says %s" %
                             (module, name, expect, r.violated or "no error"))
         return r
